@@ -685,3 +685,40 @@ def r01e(R):
                                 ok = True
         R.check(f, construct, ok, 'the members handed to the fan-out helper '
                 'are not the complete member list (filter or no list)')
+
+
+# ---------------------------------------------------------------- R01.f
+CLOCK = 'bardolph.lib.clock'
+
+
+@rule('R01.f', ('C01',), 'the clock is re-based when a time-of-day wait ends, '
+      'not when it begins', floor=2,
+      decides='the delays requested after a `time at` statement are counted '
+              'from the moment the awaited time arrived')
+def r01f(R):
+    A = R.A
+    wu = A.func(CLOCK, 'Clock.wait_until')
+    cfg = A.cfg(wu)
+    resets = A.calls_nodes(wu, 'Clock.reset')
+    waits = A.calls_nodes(wu, 'Clock.wait')
+    matches = [n for n in cfg.nodes if n.kind == 'cond' and any(
+        isinstance(c.func, ast.Attribute) and c.func.attr == 'match'
+        for c in n.calls())]
+    if not matches or not waits:
+        raise AnalysisError('Clock.wait_until: match / wait() not found')
+    # (a) every way out of the loop through a successful match re-bases
+    starts = [m for n in matches for m, lab in n.succs if lab is True]
+    p = cfg.find_path(starts, lambda n: n is cfg.exit, avoid=resets + matches)
+    R.check(wu, 'match -> reset() -> return', bool(resets) and p is None,
+            'wait_until can return after the awaited time arrived without '
+            're-basing the clock: the following delays are counted from the '
+            'start of the script', path=path_text(p) if p else None)
+    # (b) nothing blocks between the re-basing and the return
+    after = [m for n in resets for m, _l in n.succs]
+    q = cfg.find_path(after, lambda n: n in waits) if resets else None
+    R.check(wu, 'no wait() after reset()', q is None,
+            'the clock is re-based before the wait for the time of day (a '
+            'path leads from reset() to wait()): when the awaited time '
+            'arrives the elapsed time already exceeds the cue time, so the '
+            'delays that follow return at once and the commands go out back '
+            'to back', path=path_text(q) if q else None)
